@@ -80,7 +80,8 @@ def build(shape, b: R.Builder):
     if k == "pipe":
         cur = p_in
         for i in range(shape["k"]):
-            cur = b.exec_step(f"/A{i}", {"x": cur})
+            # "replica": every step after the first runs on a second deployment, inputs staged read-only
+            cur = b.exec_step(f"/A{i}", {"x": cur}, site_b=bool(shape.get("replica")) and i > 0)
         return p_in, None, cur
     if k in ("sg", "sg2"):
         n, m = shape["n"], shape["m"]
@@ -188,6 +189,7 @@ class RunResult:
 def execute(sim, shape, faults, max_retries=10, retry_delay=0, manager="simrollback", check_dirs=None):
     """Run the shape with the fault plan under the failure manager. Returns a RunResult."""
     c = R.Ctl(sim, faults)
+    c.writable = not shape.get("replica")
     sim.info["rec"] = c
     res = RunResult()
     res.ctl = c
